@@ -130,10 +130,23 @@ func (s *handler4LogSlog) WithGroup(name string) logslog.Handler {
 
 // withFields returns a cloned Handler with the given fields.
 func (s *handler4LogSlog) withFields(fields ...Attr) *handler4LogSlog {
-	cloned := &handler4LogSlog{
-		New().SetAttrs(fields...),
+	// derive from the underlying logger, so that the derived handler keeps
+	// its level, format and destinations and adds the given attributes
+	var parent *Entry
+	switch l := s.Logger.(type) {
+	case *logimp:
+		parent = l.Entry
+	case *Entry:
+		parent = l
 	}
-	return cloned
+	if parent == nil {
+		return &handler4LogSlog{New().SetAttrs(fields...)}
+	}
+	child := parent.newChildLogger() // inherits level and format
+	child.writer = parent.writer    // same destinations
+	child.modeUTC, child.timeLayout = parent.modeUTC, parent.timeLayout
+	child.attrs = append(append(Attrs(nil), parent.attrs...), fields...)
+	return &handler4LogSlog{&logimp{child}}
 }
 
 var _ logslog.Handler = (*handler4LogSlog)(nil)
